@@ -10,7 +10,7 @@ PROPERTIES = ["C13", "C14"]
 MANIFEST = {
     "C13": {
         "technique": "Lean 4 proof (invariants of a model of the Server client write path over all histories of writes, send outcomes, suspend/resume and peer reads) + tie by translation (tools/gen_server.py translates ClientImpl::write/read/suspend/resume, the write-ready branch of run(), Socket::send/recv and mapEvents/unmapEvents from the current sources into Lean on every run; theorems translated body = model step) + differential correspondence model vs real Server on a socket pair with interposed send()",
-        "text": "Theorems over all operation histories of the Lean model of ClientImpl::write/read/suspend/resume and the write-ready branch of Server::run (stream_exact, postponed_is_backlog, onWrite_iff_drained, interest_inv, suspended_no_read; suspended_no_read_batch for several clients with events pending in one poll batch); the model is tied to the current Server.cpp/Socket.cpp on every run by executing identical op lines on a real Server whose send() is interposed with scripted outcomes (exhaustive fault sequences + random histories, ASan/UBSan), and by an independent Python byte-stream reference evaluated on the implementation's observations (received stream, return/postponed values, send-buffer size, callback log, intercepted sends, epoll interest). Tie by translation (round 7): lean/Nstd/Generated/ServerTr.lean is regenerated from the CURRENT Server.cpp / Socket.cpp (after g++ -E) on every run; PropsTr13 (byte level: tr13_write_eq — backlog bytes, wire, interest, closing, return value, postponed, intercepted sends —, tr13_writeBranch_eq, tr13_suspend_eq, tr13_resume_eq, tr13_read_eq) and PropsTr (count level: tr_write_eq, tr_writeBranch_eq, tr_suspend_eq, tr_resume_eq, tr_read_eq, tr_read_hard_error, tr_readBranch_eq; socket_send_maps_wouldblock, socket_recv_maps_wouldblock, send_classification: the would-block mapping of Socket::send/recv for every system-call answer; tr_unmapEvents_eq, tr_mapEvents_spec, tr_dispatch_order, tr_flag_values) prove that each translated body IS the corresponding model step for every model state, data, kernel answer and flag set; a change of one of these bodies that changes behaviour makes the build of these files fail (a body outside the translated C++ subset is refused: broken tie).",
+        "text": "Theorems over all operation histories of the Lean model of ClientImpl::write/read/suspend/resume and the write-ready branch of Server::run (stream_exact, postponed_is_backlog, onWrite_iff_drained, interest_inv, suspended_no_read; suspended_no_read_batch for several clients with events pending in one poll batch); the model is tied to the current Server.cpp/Socket.cpp on every run by executing identical op lines on a real Server whose send() is interposed with scripted outcomes (exhaustive fault sequences + random histories, ASan/UBSan), and by an independent Python byte-stream reference evaluated on the implementation's observations (received stream, return/postponed values, send-buffer size, callback log, intercepted sends, epoll interest). Tie by translation (round 7): lean/Nstd/Generated/ServerTr.lean is regenerated from the CURRENT Server.cpp / Socket.cpp (after g++ -E) on every run; PropsTr13 (byte level: tr13_write_eq — backlog bytes, wire, interest, closing, return value, postponed, intercepted sends —, tr13_writeBranch_eq, tr13_suspend_eq, tr13_resume_eq, tr13_read_eq) and PropsTr (count level: tr_write_eq, tr_writeBranch_eq, tr_suspend_eq, tr_resume_eq, tr_read_eq, tr_read_hard_error, tr_readBranch_eq; socket_send_maps_wouldblock, socket_recv_maps_wouldblock, send_classification: the would-block mapping of Socket::send/recv for every system-call answer; tr_unmapEvents_eq, tr_mapEvents_spec, tr_dispatch_order, tr_flag_values) prove that each translated body IS the corresponding model step for every model state, data, kernel answer and flag set; a change of one of these bodies that changes behaviour makes the build of these files fail (a body outside the translated C++ subset is refused: broken tie; helper functions — members of ClientImpl, members of Server::Private taking the client, file-static functions — are inlined at their calls, also when they return a value inside an expression).",
         "note": "Trusted: Lean kernel + the three standard axioms; tools/gen_server.py (tokenizer, parser, continuation-passing translation of if/else, switch with fall-through, break/continue/return, SSA locals, flag and integer expressions; assumptions: integers are mathematical integers and the casts (usize)/(int)/(ssize) are the identity on the paths where they occur, flag constants are distinct single bits (checked), operands of && || ?: are free of side effects in the subset, Buffer::reserve keeps the content, integer bit arithmetic and Buffer::capacity are uninterpreted values the theorems quantify over) and the hand-written meaning of the primitives (TrC13.lean / TrC14.lean: which model field a C++ member is, what send/recv answer, that the harness callback removes the client in onClosed); translated from the current source and proved equal to the model: ClientImpl::write/read/suspend/resume, the read and write-ready branches of run(), Socket::send, the first switch of Socket::recv, mapEvents, unmapEvents; also translated (second leg, PropsTrLoop: tr_pollSet_eq, tr_pollRemove_eq, tr_timerIter_eq, tr_closingIter_eq, tr_closingIter_exit): Poll::set, Poll::remove and one iteration of the timer loop and of the closing loop of run(), proved equal to pollSet / pollRemove / the .timers / .closing case of step of the event-loop model (iterators as find results, references as cells, loops as one iteration; trusted: the meaning of the primitives PPoll / PTimer / PClosing in TrC14.lean); hand-translated and only tied by the correspondence run: Poll::poll, the one-client closing round of the C13 model, one poll round per `ready` op; the kernel delivers bytes accepted by send() in order (checked by the harness on a socket pair) and reports a socket pair with free buffer space writable; Buffer behaves as a byte queue (C08); the byte-stream theorems use the one-client model (one poll round per `ready` op); the clause about suspended clients is additionally proved over the event-loop model of C14 with any number of clients and the poll's pending batch (PropsC13Batch: set_purges_pending_batch, suspended_has_no_pending_read, suspended_no_read_batch, onRead_only_from_poll) and run on the real Server in a second stream (2..5 clients fetched in one epoll_wait batch, suspend/resume from other clients' / timers' / listeners' callbacks; monitor: no onRead between suspend and resume); peer hang-up and read(…,0) are outside the C13 model; the C13 model assumes that onClosed removes the client (as the harness callback does) — peer_stream_prefix depends on it (a kept client that writes again after a failed write-ready send would leave a gap).",
         "design_ref": "DESIGN.md 3/C13",
     },
